@@ -1,6 +1,9 @@
 #!/bin/bash
 # usage: tools_mutate.sh <file-in-repo> <python-regex> <replacement> <check args...>   (machinery self-test; reverts the edit)
+# Evidence and replays of the run on the mutated tree go to a scratch directory (PYVC_OUT), never to /verif/evidence.
 f=$1; pat=$2; rep=$3; shift 3
+export PYVC_OUT=/var/tmp/pyvc_selftest.$$
+mkdir -p $PYVC_OUT
 cp /repo/$f /var/tmp/mut_backup.$$ 
 python3 - "$f" "$pat" "$rep" <<'PY'
 import re,sys
@@ -11,5 +14,5 @@ if k!=1: print("MUTATION DID NOT APPLY"); sys.exit(0)
 open(p,'w').write(n)
 PY
 (cd /verif && timeout 600 ./check "$@" 2>&1 | grep -v conda | cut -c1-300 | head -${MUT_LINES:-12})
-cp /var/tmp/mut_backup.$$ /repo/$f; rm -f /var/tmp/mut_backup.$$
+cp /var/tmp/mut_backup.$$ /repo/$f; rm -f /var/tmp/mut_backup.$$; rm -rf $PYVC_OUT
 cd /repo && git status --short | head -3
